@@ -254,10 +254,39 @@ def gen_sheets(rng):
             tabs.append(gen_table(rng, k))
             k += 1
         sheet = {"name": s, "tables": tabs}
-        if len(tabs) == 1 and rng.random() < 0.2:
-            sheet["bare"] = True          # passed as {name: Table} instead of {name: [Table]}
+        # the form in which the sheet's tables are handed to write_excel (same workbook expected for every form)
+        forms = ["list", "list", "tuple", "generator", "iter", "map"] + (["bare", "bare"] if len(tabs) == 1 else [])
+        sheet["form"] = rng.choice(forms)
         sheets.append(sheet)
+    if len(sheets) == 1 and rng.random() < 0.3:
+        # the tables as the whole argument (no dict): written to the default sheet name
+        sheets[0]["name"] = "Sheet1"
+        sheets[0]["whole"] = True
     return sheets
+
+
+def tables_form(tabs, form):
+    """a fresh argument of the given form over the tables (one-shot forms are consumed by one write)"""
+    if form == "bare" and len(tabs) == 1:
+        return tabs[0]
+    if form == "tuple":
+        return tuple(tabs)
+    if form == "generator":
+        return (t for t in tabs)
+    if form == "iter":
+        return iter(list(tabs))
+    if form == "map":
+        return map(lambda t: t, tabs)
+    return list(tabs)
+
+
+def tables_argument(sheets, real):
+    """what is passed as `tables` to write_excel for a case; call once per write"""
+    def form(s):
+        return "bare" if s.get("bare") else s.get("form", "list")
+    if len(sheets) == 1 and sheets[0].get("whole") and sheets[0]["name"] == "Sheet1":
+        return tables_form(real["Sheet1"], form(sheets[0]))
+    return {s["name"]: tables_form(real[s["name"]], form(s)) for s in sheets}
 
 
 CUSTOM_STYLES = [
@@ -711,8 +740,12 @@ def run_case(case, out, tmp, model_ok, ops, pend, oracle=True):
     styles = styles_arg(case["styles"])
     sep, pattern, kind = case["sep"], case["pattern"], case["target"]
     real = {s["name"]: [build_table(t) for t in s["tables"]] for s in sheets}
-    arg = {s["name"]: (real[s["name"]][0] if s.get("bare") and len(s["tables"]) == 1 else real[s["name"]])
-           for s in sheets}
+
+    class _Fresh:
+        """a new argument object for every write (generators / iterators / map objects are one-shot)"""
+        def __call__(self):
+            return tables_argument(sheets, real)
+    arg = _Fresh()
     mt = [{"name": s["name"], "tables": [model_table(t) for t in real[s["name"]]]} for s in sheets]
     tag = "c%s" % case.get("index", "r")
     brief = {k: case[k] for k in ("seed", "index", "styles", "sep", "target", "pattern") if k in case}
@@ -720,7 +753,7 @@ def run_case(case, out, tmp, model_ok, ops, pend, oracle=True):
 
     # ---- write (the setting under test) and, if styled, the unstyled twin
     try:
-        data, appended = write_wb(arg, styles, sep, kind, tmp, tag)
+        data, appended = write_wb(arg(), styles, sep, kind, tmp, tag)
     except Exception as e:  # noqa: BLE001
         last_zero = any(s["tables"] and not s["tables"][-1]["columns"] and not s["tables"][-1]["transposed"]
                         for s in sheets)
@@ -736,7 +769,7 @@ def run_case(case, out, tmp, model_ok, ops, pend, oracle=True):
     grid = value_grid(data)
     if styles:
         try:
-            data0, _ = write_wb(arg, False, sep, kind, tmp, tag + "u")
+            data0, _ = write_wb(arg(), False, sep, kind, tmp, tag + "u")
             grid0 = value_grid(data0)
         except Exception as e:  # noqa: BLE001
             grid0 = None
@@ -750,7 +783,7 @@ def run_case(case, out, tmp, model_ok, ops, pend, oracle=True):
     if oracle:
         other = "bytes" if kind == "path" else "path"
         try:
-            data2, _ = write_wb(arg, styles, sep, other, tmp, tag + "o")
+            data2, _ = write_wb(arg(), styles, sep, other, tmp, tag + "o")
             if not grids_equal(value_grid(data2), grid):
                 out.fail("the workbook written to a path differs from the one written to a binary stream", brief,
                          first_grid_diff(value_grid(data2), grid), "identical cell values", key="path_vs_stream")
@@ -890,7 +923,8 @@ def run(tier, seed, model_ok, translator, search=False):
     out = Outcome()
     out.rule = ("random sheet maps (1-3 sheets, 0-3 Excel-well-formed tables each: text/onoff/datetime/float/int "
                 "columns, 0-4 columns, 0-5 rows, both orientations, NaN/NaT, unicode; 30% of the tables with >= 2 columns are "
-                "built in another column order, consulted once and re-arranged in place on t.df before writing) x styles {False, True, 4 custom "
+                "built in another column order, consulted once and re-arranged in place on t.df before writing) x argument form {list, tuple, generator, iterator, map, bare "
+                "Table; per sheet or as the whole argument} x styles {False, True, 4 custom "
                 "dicts} x sep_lines 1..3 x {path, BytesIO} x sheet_name_pattern; real write_excel -> read_excel; "
                 "non-trivial = at least one table with a column; distinct by sheet map and settings")
     rng = make_rng(seed, "C09")
@@ -932,8 +966,7 @@ def run(tier, seed, model_ok, translator, search=False):
             if not sheet_names_ok([s["name"] for s in sheets]):
                 out.mismatch("generator produced sheet names outside sheetNamesOK", case, [s["name"] for s in sheets], None)
             for s in sheets:
-                if s.get("bare"):
-                    out.count("sheet passed as a bare Table")
+                out.count("argument form:" + ("whole:" if s.get("whole") else "") + s.get("form", "list"))
                 out.count("tables_per_sheet:%d" % len(s["tables"]))
                 for t in s["tables"]:
                     if not py_wf(t):
@@ -1038,6 +1071,20 @@ def fixed_cases(seed):
                           "sheets": [{"name": "S", "tables": tabs}, {"name": "Other", "tables": [r] if i % 2 else []}],
                           "styles": st, "sep": sep, "target": "bytes" if i % 2 else "path",
                           "pattern": None if i % 4 else "S"})
+    # argument forms: the same tables as list / tuple / generator / iterator / map / bare Table, per sheet and as the
+    # whole argument, styled and unstyled, to a path and to a stream
+    k = 0
+    for form in ("list", "tuple", "generator", "iter", "map", "bare"):
+        for st in ("False", "True", "custom:0"):
+            k += 1
+            tabs2 = [r] if form == "bare" else [r, t1]
+            cases.append({"seed": seed, "index": "form:%s:%s" % (form, st), "styles": st, "sep": 1 + k % 2,
+                          "sheets": [{"name": "A", "tables": tabs2, "form": form},
+                                     {"name": "B", "tables": [t1], "form": "list" if k % 2 else form}],
+                          "target": "path" if k % 2 else "bytes", "pattern": None})
+            cases.append({"seed": seed, "index": "whole:%s:%s" % (form, st), "styles": st, "sep": 1,
+                          "sheets": [{"name": "Sheet1", "tables": tabs2, "form": form, "whole": True}],
+                          "target": "bytes" if k % 2 else "path", "pattern": None})
     # sheet names around openpyxl's default sheet title: every requested name must come back as it was given
     for i, names in enumerate([["Sheet"], ["sheet"], ["SHEET", "Sheet1"], ["Sheet", "Sheet1", "Sheet11"],
                                ["Sheet1", "Sheet"], ["Sheet2", "sheet", "Sheet11"], ["Sheet11", "Sheet1", "SHEET"]]):
